@@ -504,4 +504,59 @@ def sumTo (f : Nat → Nat) : Nat → Nat
   | 0 => 0
   | n + 1 => sumTo f n + f n
 
+/-! ## Part 3: thread topology — who executes the handle side
+
+The handle side of an instance (spawn, join, drop of its `JoinHandle`) is executed by *some thread*: the main thread,
+or another spawned instance inside its closure.  `Topo.owner i = some j`: instance `i` is spawned, joined and
+dropped by the thread of instance `j`, which must then be inside its closure (`t = .run`: created, closure neither
+returned nor panicked yet).  Two facts make the topology matter: (1) a blocked join blocks the owner's thread, not
+"the handle side" in the abstract; (2) `set_tid_address` acts on the CALLING thread — if handle-side code issues it,
+it resets the clear-tid address of the *owner's* thread, not of the thread whose join state is being freed.  In
+spawn.rs as it is no handle-side code does (`hTidDrop = hTidDealloc = false`, re-derived from the source by
+Props/C05 `gen_handle_side_never_resets_tid`); the two parameters describe the variants in which the reset has been
+moved into `Drop for JoinHandle` / into `Tsm::dealloc`. -/
+
+def isHEv : Ev → Bool
+  | .hAllocTsm | .hBox | .hMmap _ | .hAllocTls | .hClone _ | .hUndoTls | .hUndoStack | .hUndoBox | .hUndoTsm
+  | .hJoin | .hDrop | .hLoad _ | .hFwait _ | .hEintr | .hSpur | .hReadSlot | .hFreeTsm | .hCas _ => true
+  | _ => false
+
+structure Topo where
+  owner : Nat → Option Nat
+  hTidDrop : Bool          -- `Drop for JoinHandle`, lost CAS: set_tid_address(0) before the block is freed
+  hTidDealloc : Bool       -- `Tsm::dealloc()` (join, drop, spawn's error paths): set_tid_address(0) before the free
+
+def Topo.Good (tp : Topo) : Prop := tp.hTidDrop = false ∧ tp.hTidDealloc = false
+instance (tp : Topo) : Decidable tp.Good := by unfold Topo.Good; infer_instance
+
+/-- the thread that would execute a handle-side step exists and is inside its closure -/
+def ownerIn (s : St) : Option Nat → Bool
+  | none => true
+  | some j => (s.inst j).t == .run
+
+/-- this handle-side step ends in `set_tid_address(0)` on the executing thread -/
+def hWipes (tp : Topo) (x : Inst) (e : Ev) : Bool :=
+  match e with
+  | .hFreeTsm => tp.hTidDealloc || (tp.hTidDrop && x.h == .dFree)
+  | .hUndoTsm => tp.hTidDealloc
+  | _ => false
+
+/-- `set_tid_address(0)` executed by the owner's thread: the main thread has no clear-tid address to lose -/
+def wipeTid (s : St) : Option Nat → St
+  | none => s
+  | some j => setInst s j { s.inst j with ctid := false }
+
+def stepN (c : Cfg) (tp : Topo) (s : St) (i : Nat) (e : Ev) : Option St :=
+  if isHEv e && !ownerIn s (tp.owner i) then none else
+  match step c s i e with
+  | none => none
+  | some s' => some (if hWipes tp (s.inst i) e then wipeTid s' (tp.owner i) else s')
+
+def runN (c : Cfg) (tp : Topo) : St → List (Nat × Ev) → Option St
+  | s, [] => some s
+  | s, (i, e) :: rest =>
+      match stepN c tp s i e with
+      | some s' => runN c tp s' rest
+      | none => none
+
 end TinyVerif.Thread
